@@ -2,11 +2,15 @@
 From Coq Require Import ZArith QArith Qcanon List Lia Bool.
 From QV.Core Require Import OF QcOF Sums Mat Cplx Psd.
 From QV.Model Require Import QObj HermEmbed C15_Dataflow C15_PhysCheck C15_Depol.
-From QV.Proofs Require Import C15_Dataflow C15_PhysCheck C15_Depol C15_DepolPsd C15_Example.
+From QV.Proofs Require Import C15_Dataflow C15_PhysCheck C15_Depol C15_DepolPsd C15_InstrCP C15_Example.
 Import ListNotations.
 Local Open Scope nat_scope.
 
-(* ================= (1) seed dataflow ================= *)
+(* ================= (1) seed dataflow =================
+   The model is the code WITH the three repairs of /verif/fixes (c15-execute-simulation-int-seed-stream,
+   c15-flow-generation-stream-per-setting, c15-execute-estimation-private-copies); the harness compares exactly these
+   definitions (single_keys, qop_key, data_key, run_private) with the implementation.  Definitions and theorems named
+   *_before_fix describe the code as it was before the named repair. *)
 
 (* joblib.Parallel: whatever order / partition over workers the tasks are executed in (every task at least once),
    the caller sees  [task 0; ...; task (n-1)]  *)
@@ -20,19 +24,28 @@ Print Assumptions C15_par_exec_schedule_irrelevant.
    estimates per (sample, case, repetition)); any counts *)
 Theorem C15_flow_exec_spec : forall (Obj Data Est : Type) (dObj : Obj) (dData : Data) (dEst : Est)
   (gen_obj : nat -> genkey -> Obj) (gen_data : Obj -> list Obj -> key -> Data) (estimate : nat -> Obj -> list Obj -> Data -> Est)
-  c o amb, orders_cover c o ->
-  flow_exec dObj dData dEst gen_obj gen_data estimate c o amb = flow_spec gen_obj gen_data estimate c amb.
+  c o, orders_cover c o ->
+  flow_exec dObj dData dEst gen_obj gen_data estimate c o = flow_spec gen_obj gen_data estimate c.
 Proof. exact @flow_exec_spec. Qed.
 Print Assumptions C15_flow_exec_spec.
 
-(* ... and when no generation setting falls back to the process-global stream, the whole result is a function of the
-   configuration (settings + seeds) alone: neither the schedules nor the ambient state matter *)
+(* ... hence the whole result (objects, data, estimates) is a function of the configuration (settings + seeds) alone:
+   the degree of parallelism / the schedules do not matter, for EVERY mix of noise methods (no hypothesis on c) *)
 Theorem C15_flow_deterministic : forall (Obj Data Est : Type) (dObj : Obj) (dData : Data) (dEst : Est)
   (gen_obj : nat -> genkey -> Obj) (gen_data : Obj -> list Obj -> key -> Data) (estimate : nat -> Obj -> list Obj -> Data -> Est)
-  c o o' amb amb', ambient_free c = true -> orders_cover c o -> orders_cover c o' ->
-  flow_exec dObj dData dEst gen_obj gen_data estimate c o amb = flow_exec dObj dData dEst gen_obj gen_data estimate c o' amb'.
+  c o o', orders_cover c o -> orders_cover c o' ->
+  flow_exec dObj dData dEst gen_obj gen_data estimate c o = flow_exec dObj dData dEst gen_obj gen_data estimate c o'.
 Proof. exact @flow_deterministic. Qed.
 Print Assumptions C15_flow_deterministic.
+
+(* re-estimating from the STORED data and objects of (sample s, repetition r) reproduces the stored estimate of case k *)
+Theorem C15_flow_reestimate : forall (Obj Data Est : Type) (dObj : Obj) (dData : Data) (dEst : Est)
+  (gen_obj : nat -> genkey -> Obj) (gen_data : Obj -> list Obj -> key -> Data) (estimate : nat -> Obj -> list Obj -> Data -> Est)
+  c o s k r, orders_cover c o -> (s < f_n_sample c)%nat -> (k < f_n_case c)%nat -> (r < f_n_rep c)%nat ->
+  let res := nth s (flow_exec dObj dData dEst gen_obj gen_data estimate c o) (d_sample dObj) in
+  nth r (nth k (r_est res) []) dEst = estimate k (r_true res) (r_testers res) (nth r (r_data res) dData).
+Proof. exact @flow_reestimate. Qed.
+Print Assumptions C15_flow_reestimate.
 
 (* SeedSequence.spawn: children are pairwise distinct; so are all leaves of a spawn tree of any depth / counts *)
 Theorem C15_spawn_keys_distinct : forall root parent n, NoDup (spawn root parent n).
@@ -48,63 +61,93 @@ Theorem C15_flow_data_keys_distinct : forall c, NoDup (map (data_key c) (seq 0 (
 Proof. exact flow_data_keys_distinct. Qed.
 Print Assumptions C15_flow_data_keys_distinct.
 
-(* seeded object generation: no two (sample, object) pairs share a stream position *)
-Theorem C15_flow_qop_keys_distinct : forall c amb s j s' j' k, f_true_seeded c = true ->
-  qop_key c amb s j = GKey k -> qop_key c amb s' j' = GKey k -> s = s' /\ j = j'.
+(* object generation: no two (sample, object) pairs share a stream position, whatever the mix of noise methods *)
+Theorem C15_flow_qop_keys_distinct : forall c s j s' j' k,
+  qop_key c s j = GKey k -> qop_key c s' j' = GKey k -> s = s' /\ j = j'.
 Proof. exact flow_qop_keys_distinct. Qed.
 Print Assumptions C15_flow_qop_keys_distinct.
 
-(* single-setting entry point, Generator argument: repetitions use distinct stream positions *)
-Theorem C15_single_generator_keys_distinct : forall r p o seed_data n_rep, NoDup (single_keys (SGen r p o) seed_data n_rep).
-Proof. exact single_generator_keys_distinct. Qed.
-Print Assumptions C15_single_generator_keys_distinct.
+(* every object is deterministic or drawn from the sample's spawned stream - never the process-global stream, never an
+   error - and every setting that needs randomness gets the stream *)
+Theorem C15_flow_qop_key_seeded : forall c s j,
+  qop_key c s j = GNoRandom \/ exists off, qop_key c s j = GKey (KSeed (f_seed_qop c) [s] off).
+Proof. exact flow_qop_key_seeded. Qed.
+Print Assumptions C15_flow_qop_key_seeded.
+Theorem C15_flow_qop_key_random_gets_stream : forall c s j, seeded_at c j = true -> exists k, qop_key c s j = GKey k.
+Proof. exact flow_qop_key_random_gets_stream. Qed.
+Print Assumptions C15_flow_qop_key_random_gets_stream.
 
-(* single-setting entry point, int seed (explicit or the setting's seed_data by default): ALL repetitions are identical,
-   whatever the data generator and the estimator are *)
-Theorem C15_single_run_int_seed_identical : forall (Data Est : Type) (gen_data : key -> Data) (estimate : Data -> Est)
-  (dflt : Data * Est) arg seed n_rep i j,
-  resolve_seed arg (Some seed) = SInt seed -> (i < n_rep)%nat -> (j < n_rep)%nat ->
-  nth i (single_run gen_data estimate arg (Some seed) n_rep) dflt = nth j (single_run gen_data estimate arg (Some seed) n_rep) dflt.
-Proof. exact @single_run_int_seed_identical. Qed.
-Print Assumptions C15_single_run_int_seed_identical.
-
-(* hence "the repetitions draw from pairwise distinct streams" is FALSE of the faithful model (DESIGN section 4, #15) *)
-Theorem C15_execute_simulation_repetitions_identical_refuted :
-  exists (arg : seedarg) (seed_data : option Z) (n_rep : nat), (2 <= n_rep)%nat /\ ~ NoDup (single_keys arg seed_data n_rep).
-Proof. exact execute_simulation_repetitions_identical_refuted. Qed.
-Print Assumptions C15_execute_simulation_repetitions_identical_refuted.
-
-(* flow: deterministic true-object noise + random tester noise -> testers are drawn from the ambient stream:
-   "generated objects are a function of settings and seeds" is FALSE of the faithful model *)
-Theorem C15_flow_tester_generation_unseeded_refuted :
-  exists (c : flowcfg) (s j a a' : nat), qop_key c a s j <> qop_key c a' s j.
-Proof. exact flow_tester_generation_unseeded_refuted. Qed.
-Print Assumptions C15_flow_tester_generation_unseeded_refuted.
-
-(* the proposed repairs (findings/C15-1.md, C15-2.md) restore the property on the model: to_stream applied once before the
-   loop / the sample's stream handed to exactly the settings that take one *)
-Theorem C15_single_keys_fixed_distinct : forall arg seed_data n_rep, NoDup (single_keys_fixed arg seed_data n_rep).
-Proof. exact single_keys_fixed_distinct. Qed.
-Print Assumptions C15_single_keys_fixed_distinct.
-
-Theorem C15_flow_qop_keys_fixed_distinct : forall c s j s' j' k,
-  qop_key_fixed c s j = GKey k -> qop_key_fixed c s' j' = GKey k -> s = s' /\ j = j'.
-Proof. exact flow_qop_keys_fixed_distinct. Qed.
-Print Assumptions C15_flow_qop_keys_fixed_distinct.
+(* single-setting entry point: for EVERY kind of seed argument (None -> seed_data or np.random, int, Generator) and any
+   n_rep the repetitions draw from pairwise distinct positions of one stream ... *)
+Theorem C15_single_keys_distinct : forall arg seed_data n_rep, NoDup (single_keys arg seed_data n_rep).
+Proof. exact single_keys_distinct. Qed.
+Print Assumptions C15_single_keys_distinct.
+(* ... and with a seed (argument or seed_data) that stream is determined by the seed, so the run is reproducible *)
+Theorem C15_single_keys_seeded : forall arg seed_data n_rep, (arg <> SNone \/ seed_data <> None) ->
+  forallb key_seeded (single_keys arg seed_data n_rep) = true.
+Proof. exact single_keys_seeded. Qed.
+Print Assumptions C15_single_keys_seeded.
+(* every stored estimate is the estimator applied to the stored data of the same repetition *)
+Theorem C15_single_run_reestimate : forall (Data Est : Type) (gen_data : key -> Data) (estimate : Data -> Est)
+  (dflt : Data * Est) arg seed_data n_rep r, (r < n_rep)%nat ->
+  snd (nth r (single_run gen_data estimate arg seed_data n_rep) dflt) = estimate (fst (nth r (single_run gen_data estimate arg seed_data n_rep) dflt)).
+Proof. exact @single_run_reestimate. Qed.
+Print Assumptions C15_single_run_reestimate.
 
 (* estimation tasks mutate the loss / algo objects they are handed (set data, then optimise).  With a private copy per
-   task every interleaving that respects each task's own order lets every task optimise over ITS data ... *)
+   task every interleaving that respects each task's own order lets every task optimise over ITS data *)
 Theorem C15_private_copies_race_free : forall sched seen regs,
   program_order seen sched = true -> (forall t, In t seen -> regs t = Some t) -> all_own (run_private regs sched).
 Proof. exact private_copies_race_free. Qed.
 Print Assumptions C15_private_copies_race_free.
 
-(* ... with ONE shared object (joblib's threading backend, findings/C15-3.md) there is an interleaving in which a task
-   optimises over another task's data: "estimates are a function of the stored data" is FALSE of the faithful model *)
-Theorem C15_shared_object_thread_race_refuted :
-  exists sched, program_order [] sched = true /\ ~ all_own (run_shared None sched).
-Proof. exact shared_object_thread_race_refuted. Qed.
-Print Assumptions C15_shared_object_thread_race_refuted.
+(* ---------- the code as it was before the repairs (findings/C15-1.md, -2.md, -3.md): the property was FALSE ---------- *)
+
+(* the repairs change nothing where the old code was right: Generator / ambient argument and repetition 0 (single);
+   homogeneous noise methods (flow) *)
+Theorem C15_single_key_fix_conservative : forall s rep, (forall n, s <> SInt n) \/ rep = 0%nat -> single_key s rep = single_key_before_fix s rep.
+Proof. exact single_key_fix_conservative. Qed.
+Print Assumptions C15_single_key_fix_conservative.
+Theorem C15_flow_qop_key_fix_conservative : forall c amb s j, (j <= length (f_tester_seeded c))%nat ->
+  forallb (fun b => Bool.eqb b (f_true_seeded c)) (f_tester_seeded c) = true ->
+  qop_key c s j = qop_key_before_fix c amb s j.
+Proof. exact flow_qop_key_fix_conservative. Qed.
+Print Assumptions C15_flow_qop_key_fix_conservative.
+
+(* before fix c15-execute-simulation-int-seed-stream, int seed (explicit or the setting's seed_data by default): ALL
+   repetitions were identical, whatever the data generator and the estimator are (DESIGN section 4, #15) *)
+Theorem C15_single_run_int_seed_identical_before_fix : forall (Data Est : Type) (gen_data : key -> Data) (estimate : Data -> Est)
+  (dflt : Data * Est) arg seed n_rep i j,
+  resolve_seed arg (Some seed) = SInt seed -> (i < n_rep)%nat -> (j < n_rep)%nat ->
+  nth i (single_run_before_fix gen_data estimate arg (Some seed) n_rep) dflt = nth j (single_run_before_fix gen_data estimate arg (Some seed) n_rep) dflt.
+Proof. exact @single_run_int_seed_identical_before_fix. Qed.
+Print Assumptions C15_single_run_int_seed_identical_before_fix.
+Theorem C15_execute_simulation_repetitions_identical_before_fix_refuted :
+  exists (arg : seedarg) (seed_data : option Z) (n_rep : nat), (2 <= n_rep)%nat /\ ~ NoDup (single_keys_before_fix arg seed_data n_rep).
+Proof. exact execute_simulation_repetitions_identical_before_fix_refuted. Qed.
+Print Assumptions C15_execute_simulation_repetitions_identical_before_fix_refuted.
+
+(* before fix c15-flow-generation-stream-per-setting: deterministic true-object noise + random tester noise -> the testers
+   were drawn from the ambient stream (objects not a function of settings and seeds); the converse mix raised *)
+Theorem C15_flow_tester_generation_unseeded_before_fix_refuted :
+  exists (c : flowcfg) (s j a a' : nat), qop_key_before_fix c a s j <> qop_key_before_fix c a' s j.
+Proof. exact flow_tester_generation_unseeded_before_fix_refuted. Qed.
+Print Assumptions C15_flow_tester_generation_unseeded_before_fix_refuted.
+Theorem C15_flow_mixed_generation_raises_before_fix : forall c t, f_true_seeded c = true -> (t < length (f_tester_seeded c))%nat ->
+  nth t (f_tester_seeded c) false = false -> flow_raises_before_fix c = true /\ forall amb s, qop_key_before_fix c amb s (S t) = GTypeError.
+Proof. exact flow_mixed_generation_raises_before_fix. Qed.
+Print Assumptions C15_flow_mixed_generation_raises_before_fix.
+
+(* before fix c15-execute-estimation-private-copies: with ONE shared object (joblib's threading backend) there is an
+   interleaving in which a task optimises over another task's data; executed one after the other it was fine *)
+Theorem C15_shared_object_thread_race_before_fix_refuted :
+  exists sched, program_order [] sched = true /\ ~ all_own (run_shared_before_fix None sched).
+Proof. exact shared_object_thread_race_before_fix_refuted. Qed.
+Print Assumptions C15_shared_object_thread_race_before_fix_refuted.
+Theorem C15_shared_object_sequential_ok_before_fix : forall order reg,
+  all_own (run_shared_before_fix reg (concat (map (fun t => [SetData t; Optimize t]) order))).
+Proof. exact shared_object_sequential_ok_before_fix. Qed.
+Print Assumptions C15_shared_object_sequential_ok_before_fix.
 
 (* ================= (3) the built-in physicality check ================= *)
 
@@ -198,25 +241,38 @@ Theorem C15_depol_gate_cp : forall (F : OF) d sd dF (B : nat -> cmat F),
   PSD F (d * d + d * d) (embed F (d * d) (choi_of_hs d B (depol_gate F (d * d) p HS))).
 Proof. exact depol_gate_cp. Qed.
 Print Assumptions C15_depol_gate_cp.
-(* PARTIAL for the single outcomes of an instrument (not trace preserving by themselves).
-   Full statement wanted:  PSD (embed (Choi HS_x)) -> 0 <= p <= 1 -> PSD (embed (Choi (depol_gate p HS_x))).
-   Proved: the same with the extra hypothesis that the trace-functional part  X |-> tr(G_x(X)) I/d  (HS matrix [row0 HS_x]) is CP.
-   Missing: the derivation of that hypothesis from CP of G_x (partial trace of a PSD Choi matrix is PSD, I (x) N is PSD). *)
-Theorem C15_depol_instrument_cp_partial : forall (F : OF) d (B : nat -> cmat F) p HS,
-  kle F (c0 F) p -> kle F p (c1 F) ->
+(* ... and of EVERY single outcome of an instrument (not trace preserving by itself): the trace-functional part
+   X |-> tr(G_x(X)) I/d of a CP map is CP (its Choi matrix is (1/d) I (x) tr_out(Choi G_x); partial trace of a PSD matrix
+   is PSD, I (x) M is PSD) - proved in Proofs/C15_InstrCP.v; no trace-preservation hypothesis *)
+Theorem C15_depol_instrument_cp : forall (F : OF) d sd dF (B : nat -> cmat F),
+  (0 < d)%nat -> dF = ones F d -> cmul F sd sd = dF -> basis_0th_identity d sd B -> basis_rest_traceless F d B ->
+  forall p HS, kle F (c0 F) p -> kle F p (c1 F) ->
   PSD F (d * d + d * d) (embed F (d * d) (choi_of_hs d B HS)) ->
-  PSD F (d * d + d * d) (embed F (d * d) (choi_of_hs d B (row0 F HS))) ->
   PSD F (d * d + d * d) (embed F (d * d) (choi_of_hs d B (depol_gate F (d * d) p HS))).
-Proof. exact depol_instrument_cp_partial. Qed.
-Print Assumptions C15_depol_instrument_cp_partial.
+Proof. exact depol_instrument_cp. Qed.
+Print Assumptions C15_depol_instrument_cp.
+(* all outcomes of a depolarised MProcess *)
+Theorem C15_depol_mprocess_cp : forall (F : OF) d sd dF (B : nat -> cmat F),
+  (0 < d)%nat -> dF = ones F d -> cmul F sd sd = dF -> basis_0th_identity d sd B -> basis_rest_traceless F d B ->
+  forall p HSs, kle F (c0 F) p -> kle F p (c1 F) ->
+  Forall (fun HS => PSD F (d * d + d * d) (embed F (d * d) (choi_of_hs d B HS))) HSs ->
+  Forall (fun HS => PSD F (d * d + d * d) (embed F (d * d) (choi_of_hs d B HS))) (depol_mprocess F (d * d) p HSs).
+Proof. exact depol_mprocess_cp. Qed.
+Print Assumptions C15_depol_mprocess_cp.
 
 (* non-vacuity *)
 Example C15_example_flow_cfg :
   let c := {| f_seed_qop := 888; f_seed_data := 777; f_n_sample := 2; f_n_rep := 3; f_n_case := 3;
               f_true_seeded := true; f_tester_seeded := [true; true; true] |} in
-  ambient_free c = true /\ flow_raises c = false /\ orders_cover c (serial c) /\
+  orders_cover c (serial c) /\
   covers 3 [2; 0; 2; 1] /\ par_exec 0%nat 3 [2; 0; 2; 1] (fun i => (10 + i)%nat) = [10; 11; 12]%nat /\
-  qop_key c 0 1 2 = GKey (KSeed 888 [1%nat] 2) /\ data_key c 2 = KSeed 777 [2%nat] 0 /\
+  qop_key c 1 2 = GKey (KSeed 888 [1%nat] 2) /\ data_key c 2 = KSeed 777 [2%nat] 0 /\
+  (* mixed noise methods: true object deterministic, testers 0 and 2 random: stream positions 0 and 1 of the sample's stream *)
+  (let c' := {| f_seed_qop := 888; f_seed_data := 777; f_n_sample := 2; f_n_rep := 3; f_n_case := 3;
+                f_true_seeded := false; f_tester_seeded := [true; false; true] |} in
+   map (qop_key c' 1) [0; 1; 2; 3]%nat = [GNoRandom; GKey (KSeed 888 [1%nat] 0); GNoRandom; GKey (KSeed 888 [1%nat] 1)]) /\
+  single_keys SNone (Some 5%Z) 3 = [KSeed 5 [] 0; KSeed 5 [] 1; KSeed 5 [] 2] /\
+  single_keys_before_fix SNone (Some 5%Z) 3 = [KSeed 5 [] 0; KSeed 5 [] 0; KSeed 5 [] 0] /\
   spawn_paths [2; 3]%nat = [[0;0];[0;1];[0;2];[1;0];[1;1];[1;2]]%nat.
 Proof. cbn. repeat split; try reflexivity; try (intros; apply covers_seq).
   intros i Hi. destruct i as [|[|[|i]]]; cbn; auto; lia. Qed.
@@ -253,8 +309,25 @@ Proof.
     + apply Qcleb_spec. vm_compute. reflexivity. + apply Qcleb_spec. vm_compute. reflexivity.
     + exact v_zz_psd. Qed.
 
+(* an instrument outcome that is NOT trace preserving (G(X) = tr(X)/2 * I/4 on two qubits, HS = 1/2 at (0,0)): it is CP,
+   so its depolarised version (p = 1/3) is CP by C15_depol_instrument_cp - C15_depol_gate_cp would not apply *)
+Example C15_example_instrument :
+  ~ hs_tp Qc_OF (4 * 4) hs00 /\
+  PSD Qc_OF (4 * 4 + 4 * 4) (embed Qc_OF (4 * 4) (choi_of_hs 4 pauli2 hs00)) /\
+  PSD Qc_OF (4 * 4 + 4 * 4) (embed Qc_OF (4 * 4) (choi_of_hs 4 pauli2 (depol_gate Qc_OF (4 * 4) (Q2Qc (1 # 3)) hs00))).
+Proof.
+  assert (H4 : four = ones Qc_OF 4) by (apply qeqb_spec; vm_compute; reflexivity).
+  assert (H2 : cmul Qc_OF two two = four) by (apply qeqb_spec; vm_compute; reflexivity).
+  split; [|split].
+  - intros H. specialize (H 0%nat). cbn in H. assert (E : Q2Qc (1 # 2) = 1%Qc) by (apply H; lia). discriminate E.
+  - exact hs00_cp.
+  - apply (C15_depol_instrument_cp Qc_OF 4 two four pauli2); try assumption; try lia.
+    + exact pauli2_0th_identity. + exact pauli2_rest_traceless.
+    + apply Qcleb_spec. vm_compute. reflexivity. + apply Qcleb_spec. vm_compute. reflexivity.
+    + exact hs00_cp. Qed.
+
 (* a shared loss object and two threads: the witness interleaving; private copies give each task its own data *)
 Example C15_example_race :
-  run_shared None [SetData 0; SetData 1; Optimize 0; Optimize 1]%nat = [(0, Some 1); (1, Some 1)]%nat /\
+  run_shared_before_fix None [SetData 0; SetData 1; Optimize 0; Optimize 1]%nat = [(0, Some 1); (1, Some 1)]%nat /\
   run_private (fun _ => None) [SetData 0; SetData 1; Optimize 0; Optimize 1]%nat = [(0, Some 0); (1, Some 1)]%nat.
 Proof. split; reflexivity. Qed.
